@@ -18,6 +18,7 @@ import (
 
 	"github.com/pierrec/lz4/v4"
 	"github.com/sirupsen/logrus"
+	"github.com/spf13/viper"
 	"golang.org/x/time/rate"
 	"google.golang.org/protobuf/proto"
 
@@ -68,7 +69,14 @@ func c03Line(e *Env) string {
 	case 5: // very long line
 		e.Fault("long-line")
 		n := []int{1000, 1472, 8192, 30000, 65000, 257, 300}[e.Draw(7)]
-		switch e.Draw(6) {
+		switch e.Draw(8) {
+		case 6, 7: // many tags, no two the same (a valid line)
+			var b strings.Builder
+			b.WriteString([]string{"a:1|c|#", "a:1|g|#", "_e{1,1}:a|b|#"}[e.Draw(3)])
+			for i := 0; b.Len() < n; i++ {
+				fmt.Fprintf(&b, "t%d:%d,", i, n)
+			}
+			return strings.TrimSuffix(b.String(), ",")
 		case 4:
 			return strings.Repeat("\x80", n) // nothing but UTF-8 continuation bytes
 		case 5:
@@ -251,6 +259,19 @@ func c03Datagrams(e *Env) {
 func c03Body(e *Env) ([]byte, string, bool) {
 	// returns body, content-encoding, and whether the request is entirely well formed
 	mm := &pb.RawMessageV2{Counters: map[string]*pb.CounterTagV2{"c": {TagMap: map[string]*pb.RawCounterV2{"t:1": {Tags: []string{"t:1"}, Value: int64(1 + e.Draw(100))}}}}}
+	switch e.Draw(7) {
+	case 1: // a set without members (a forwarder never sends one; any other client may)
+		mm = &pb.RawMessageV2{Sets: map[string]*pb.SetTagV2{"s": {TagMap: map[string]*pb.RawSetV2{"t:1": {Tags: []string{"t:1"}}}}}}
+	case 2:
+		mm = &pb.RawMessageV2{Sets: map[string]*pb.SetTagV2{"s": {TagMap: map[string]*pb.RawSetV2{"t:1": {Tags: []string{"t:1"}, Values: []string{fmt.Sprintf("m%d", e.Draw(3))}}}}}}
+	case 3: // a timer without values; sampled counts of every kind
+		mm = &pb.RawMessageV2{Timers: map[string]*pb.TimerTagV2{"t": {TagMap: map[string]*pb.RawTimerV2{"t:1": {Tags: []string{"t:1"}, SampleCount: []float64{0, 1, -1, math.NaN(), math.Inf(1)}[e.Draw(5)]}}}}}
+	case 4:
+		mm = &pb.RawMessageV2{Timers: map[string]*pb.TimerTagV2{"t": {TagMap: map[string]*pb.RawTimerV2{"t:1": {Tags: []string{"t:1"}, Values: []float64{1, math.NaN(), math.Inf(-1)}[:1+e.Draw(3)], SampleCount: float64(e.Draw(3))}}}}}
+	case 5: // one series under two keys, an entry without tags, an empty name
+		mm = &pb.RawMessageV2{Sets: map[string]*pb.SetTagV2{"s": {TagMap: map[string]*pb.RawSetV2{"t:1": {Tags: []string{"t:1"}}, "t:1,": {Tags: []string{"t:1"}, Values: []string{"m"}}, "": {}}}, "": {}},
+			Gauges: map[string]*pb.GaugeTagV2{"g": {TagMap: map[string]*pb.RawGaugeV2{"": {Value: math.NaN()}}}, "": {TagMap: map[string]*pb.RawGaugeV2{"x": {Hostname: "h"}}}}}
+	}
 	raw, _ := proto.Marshal(mm)
 	valid := true
 	if e.Chance(1, 3) {
@@ -343,7 +364,28 @@ func c03HTTP(e *Env) {
 	}
 	fab := NewFabric()
 	fab.Handle("in", srv.Router)
+	// what the endpoint hands on goes where it goes in a server: through the tag stage into an
+	// aggregator that is flushed now and then; nothing a request put there may bring that down
+	aggr := statsd.NewMetricAggregator([]float64{90}, time.Minute, time.Minute, time.Minute, time.Minute, gostatsd.TimerSubtypes{}, 10)
+	tagStage := statsd.NewTagHandlerFromViper(viper.New(), aggrSink{aggr}, gostatsd.Tags{"static:1"})
+	mapsDown := 0
+	downstream := func() {
+		defer func() {
+			if p := recover(); p != nil {
+				e.Failf("C03/pipeline-panic", "what an accepted request handed on makes the aggregation pipeline panic (nothing recovers that in a server): %v", p)
+			}
+		}()
+		for ; mapsDown < up.NMaps(); mapsDown++ {
+			tagStage.DispatchMetricMap(context.Background(), up.MapAt(mapsDown).Map)
+			if e.Chance(1, 4) {
+				aggr.Flush(time.Second)
+				aggr.Process(func(*gostatsd.MetricMap) {})
+				aggr.Reset()
+			}
+		}
+	}
 	serve := func(path string, body []byte, enc string) int {
+		defer downstream()
 		r := &HTTPReq{Method: "POST", Host: "in", Path: path, Header: map[string][]string{"Content-Type": {"application/x-protobuf"}}, Body: body}
 		if e.Chance(1, 4) {
 			r.Chunked = true // a client streaming the body: no Content-Length
@@ -449,3 +491,11 @@ func c03HTTP(e *Env) {
 	}
 	_ = gostatsd.StatserNull
 }
+
+// aggrSink is the end of the pipeline: one aggregator.
+type aggrSink struct{ a statsd.Aggregator }
+
+func (s aggrSink) DispatchMetricMap(_ context.Context, mm *gostatsd.MetricMap) { s.a.ReceiveMap(mm) }
+func (s aggrSink) DispatchEvent(context.Context, *gostatsd.Event)              {}
+func (s aggrSink) EstimatedTags() int                                          { return 0 }
+func (s aggrSink) WaitForEvents()                                              {}
